@@ -1,5 +1,6 @@
 import LoguruModel.Catch.Tower
 import LoguruModel.Catch.Threads
+import LoguruModel.Catch.Options
 import LoguruModel.Driver
 open Catch Py.Gen
 
@@ -23,6 +24,10 @@ open Catch Py.Gen
              decorator for its exception;  schedule `,`-joined thread indices (one atomic step each) or `-`
     answer:  R <result per thread: s (suppress) | p (propagate) | e<cls>.<id> | ? (not finished)> T <tid>:<event>,…
     The flag storage is the GENERATED `Gen.flagStore`.
+
+    opt <site: fn|with|awith> <depth> <lazy><colors><raw><capture> (bits)     (round 5: Catch/Options.lean)
+    answer:  F <index of the frame the record names, counted from `_log`> O <exception>,<depth>,<record>,<lazy>,<colors>,<raw>,<capture>,<patchers>,<extra>
+             (values `_log` finds under these names: t = the caught triple, n<k>, b0/b1, o<tag> = the logger's own object)
 -/
 
 def bit (bits : String) (i : Nat) : Bool := bits.toList.getD i '0' == '1'
@@ -221,8 +226,25 @@ def stepThreads (ml threads sched : String) : String :=
     s!"R {joinOr rs} T {joinOr tr}"
   | _, _, _ => "bad-op"
 
+def showOpt : Option OptVal → String
+  | some (.triple _) => "t" | some (.num n) => s!"n{n}" | some (.bool b) => if b then "b1" else "b0"
+  | some (.other t) => s!"o{t}" | none => "?"
+
+def stepOptions (site depth bits : String) : String :=
+  match depth.toNat? with
+  | some d =>
+    let adj := if site == "fn" then decoratorDepth else if site == "with" then withDepth else asyncWithDepth
+    let opts : List OptVal := [.other 1, .num d, .bool false, .bool (bit bits 0), .bool (bit bits 1), .bool (bit bits 2),
+                               .bool (bit bits 3), .other 7, .other 8]
+    let handed := catchOptions opts ⟨8, 101⟩ adj
+    let names := ["exception", "depth", "record", "lazy", "colors", "raw", "capture", "patchers", "extra"]
+    let fi := match recordFrameIndex handed with | some i => toString i | none => "?"
+    s!"F {fi} O {",".intercalate (names.map (fun n => showOpt (logSees handed n.toList)))}"
+  | none => "bad-op"
+
 def step (line : String) : String :=
   match line.splitOn " " with
+  | ["opt", site, depth, bits] => stepOptions site depth bits
   | ["thr", ml, threads, sched] => stepThreads ml threads sched
   | [kind, cfgs, env, auto, ops] =>
     match parseEnv env with
